@@ -260,7 +260,7 @@ static void dec_tj(int kind, int a, int b, int cflags, int d, const unsigned cha
 {
   tjhandle tj = tj_dec(); int w, h, ss, prec, ll, cs, sane, nsf, run, rcs[2] = { 0, 0 }, ecs[2] = { 0, 0 };
   tjscalingfactor *sfs = tj3GetScalingFactors(&nsf), sf = { 1, 1 };
-  unsigned long hs[2] = { 0, 0 }; int same = 1, ow = 0, oh = 0, pf = a % TJ_NUMPF, cropped = 0, untouched = 0;
+  unsigned long hs[2] = { 0, 0 }; int same = 1, ow = 0, oh = 0, pf = a % TJ_NUMPF, cropped = 0, untouched = 0, thr = 0;
   tjregion cr = { 0, 0, 0, 0 };
   double t0 = cpu_us();
   int hr = tj3DecompressHeader(tj, buf, len);
@@ -294,6 +294,7 @@ static void dec_tj(int kind, int a, int b, int cflags, int d, const unsigned cha
       else if (prec <= 12) rc = tj3Decompress12(tj, buf, len, (short *)dst, pitch, pf);
       else rc = tj3Decompress16(tj, buf, len, (unsigned short *)dst, pitch, pf);
       rcs[run] = rc; ecs[run] = rc ? tj3GetErrorCode(tj) : 0;
+      if (rc) thr = strstr(tj3GetErrorStr(tj), "(): ") != NULL;
       { /* hash the documented extent only: ow*ps samples of each row */
         unsigned long hh = 1469598103934665603UL; int y;
         for (y = 0; y < oh; y++) hh = hh * 31 + fnv(dst + (size_t)y * pitch * ssz, (size_t)ow * ps * ssz);
@@ -309,6 +310,7 @@ static void dec_tj(int kind, int a, int b, int cflags, int d, const unsigned cha
       memset(dst, run ? 0xA5 : 0x5A, ysz);
       rc = tj3DecompressToYUV8(tj, buf, len, dst, align);
       rcs[run] = rc; ecs[run] = rc ? tj3GetErrorCode(tj) : 0;
+      if (rc) thr = strstr(tj3GetErrorStr(tj), "(): ") != NULL;
       { /* row padding of the planes is not "produced output": hash the plane extents only */
         unsigned long hh = 7; int pl, np = ss == TJSAMP_GRAY ? 1 : 3; size_t off = 0;
         for (pl = 0; pl < np; pl++) {
@@ -328,8 +330,8 @@ static void dec_tj(int kind, int a, int b, int cflags, int d, const unsigned cha
     int ok0 = rcs[0] == 0 || (rcs[0] == -1 && ecs[0] == TJERR_WARNING);
     int ok1 = rcs[1] == 0 || (rcs[1] == -1 && ecs[1] == TJERR_WARNING);
     same = (ok0 == ok1) && (!ok0 || hs[0] == hs[1]);
-    printf("dec k=%d hdr=%d sane=1 w=%d h=%d ss=%d prec=%d ll=%d cs=%d pf=%d sf=%d/%d crop=%d ow=%d oh=%d rc=%d,%d ec=%d,%d done=%d same=%d untouched=%d oh=%lx t=%.0f\n",
-           kind, hr, w, h, ss, prec, ll, cs, pf, sf.num, sf.denom, cropped, ow, oh, rcs[0], rcs[1], ecs[0], ecs[1], ok0, same, untouched, hs[0], cpu_us() - t0);
+    printf("dec k=%d hdr=%d sane=1 w=%d h=%d ss=%d prec=%d ll=%d cs=%d pf=%d sf=%d/%d crop=%d ow=%d oh=%d rc=%d,%d ec=%d,%d done=%d same=%d untouched=%d thr=%d oh=%lx t=%.0f\n",
+           kind, hr, w, h, ss, prec, ll, cs, pf, sf.num, sf.denom, cropped, ow, oh, rcs[0], rcs[1], ecs[0], ecs[1], ok0, same, untouched, thr, hs[0], cpu_us() - t0);
   }
 }
 
